@@ -230,6 +230,136 @@ def ofList : List α → Option (M4 α)
   | _ => none
 end M4
 
+/-! ## Scaling, Gram matrices and the characteristic-polynomial coefficients of `Eigenvalues`
+
+What the scale-covariance theorems of `Props/C17.lean` talk about: `Matrix4.Scale`, `mᵀ·m` (the
+matrix whose eigenvalues `SVD` takes square roots of), and the coefficients that
+`Matrix2.Eigenvalues` / `Matrix3.Eigenvalues` feed into the quadratic / cubic formula. -/
+
+namespace M4
+variable [Mul α]
+/-- `Matrix4.Scale` (returns the scalar-matrix product). -/
+def scale (x : M4 α) (s : α) : M4 α :=
+  ⟨x.a*s, x.b*s, x.c*s, x.d*s, x.e*s, x.f*s, x.g*s, x.h*s, x.i*s, x.j*s, x.k*s, x.l*s,
+   x.m*s, x.n*s, x.o*s, x.p*s⟩
+end M4
+
+namespace M2
+variable [Add α] [Sub α] [Mul α] [Div α] [Neg α] [NatCast α]
+/-- `m.Transpose().Mul(m)` — `ata` in `Matrix2.SVD`. -/
+def gram (m : M2 α) : M2 α := m.transpose.mul m
+/-- Coefficients `(b, c)` of the monic quadratic `x² + b·x + c` that `Matrix2.Eigenvalues` solves:
+`b = -(m[0] + m[3])`, `c = m.Det()`. -/
+def eigCoeffs (m : M2 α) : α × α := (-(m.m0 + m.m3), m.det)
+/-- `x·I − m`. -/
+def xIminus (t : α) (m : M2 α) : M2 α := ⟨t - m.m0, -m.m1, -m.m2, t - m.m3⟩
+/-- The branch of `Matrix2.Eigenvalues` with a non-negative discriminant (every symmetric matrix, so
+every `ata` of `SVD`): `(-b ∓ sqrt(b·b − 4·1·c)) / (2·1)`.  With zero imaginary parts Go's complex
+`*`, `-` and `/` by the real `2` perform exactly these real operations. -/
+def eigenvaluesReal (sqrt : α → α) (m : M2 α) : α × α :=
+  let bc := eigCoeffs m
+  let b := bc.1
+  let c := bc.2
+  let one := ((1 : Nat) : α)
+  let disc := b * b - ((4 : Nat) : α) * one * c
+  let sq := sqrt disc
+  ((-b - sq) / (((2 : Nat) : α) * one), (-b + sq) / (((2 : Nat) : α) * one))
+end M2
+
+namespace M3
+variable [Add α] [Sub α] [Mul α] [Div α] [Neg α] [NatCast α]
+/-- `m.Transpose().Mul(m)` — `ata` in `Matrix3.SVD`. -/
+def gram (m : M3 α) : M3 α := m.transpose.mul m
+/-- `trace` of `Matrix3.Eigenvalues`. -/
+def trace (m : M3 α) : α := m.m0 + m.m4 + m.m8
+/-- `sqTrace` of `Matrix3.Eigenvalues` (the trace of `m·m`, as written). -/
+def sqTrace (m : M3 α) : α :=
+  (m.m0 * m.m0 + m.m1 * m.m3 + m.m2 * m.m6) + (m.m1 * m.m3 + m.m4 * m.m4 + m.m7 * m.m5)
+    + (m.m2 * m.m6 + m.m5 * m.m7 + m.m8 * m.m8)
+/-- Coefficients `(b, c, d)` of the cubic `-x³ + b·x² + c·x + d` whose roots `Matrix3.Eigenvalues`
+returns through the cubic formula: `b = trace`, `c = 0.5·(sqTrace − trace²)`, `d = Det()`. -/
+def eigCoeffs (m : M3 α) : α × α × α :=
+  (trace m, ((1 : Nat) : α) / ((2 : Nat) : α) * (sqTrace m - trace m * trace m), m.det)
+/-- `m − x·I`. -/
+def minusXI (m : M3 α) (t : α) : M3 α :=
+  ⟨m.m0 - t, m.m1, m.m2, m.m3, m.m4 - t, m.m5, m.m6, m.m7, m.m8 - t⟩
+end M3
+
+namespace M4
+variable [Add α] [Sub α] [Mul α] [Neg α] [NatCast α]
+/-- `m.Transpose().Mul(m)` — `mtm` in `Matrix4.SVD`. -/
+def gram (x : M4 α) : M4 α := x.transpose.mul x
+end M4
+
+/-! ## `numerical.Vec2/3/4` (`numerical/vecs.go`) -/
+
+structure V4 (α : Type) where
+  x : α
+  y : α
+  z : α
+  w : α
+deriving Repr, DecidableEq
+
+namespace V2
+variable [Add α] [Sub α] [Mul α] [Div α] [Neg α] [NatCast α]
+def add (a b : V2 α) : V2 α := ⟨a.x + b.x, a.y + b.y⟩
+def sub (a b : V2 α) : V2 α := ⟨a.x - b.x, a.y - b.y⟩
+def scale (a : V2 α) (f : α) : V2 α := ⟨a.x * f, a.y * f⟩
+def dot (a b : V2 α) : α := a.x * b.x + a.y * b.y
+def sum (a : V2 α) : α := a.x + a.y
+/-- `Vec2.DistSquared` (the loop starts from `res = 0`). -/
+def distSquared (a b : V2 α) : α :=
+  ((0 : Nat) : α) + (a.x - b.x) * (a.x - b.x) + (a.y - b.y) * (a.y - b.y)
+def norm (sqrt : α → α) (a : V2 α) : α := sqrt (dot a a)
+def dist (sqrt : α → α) (a b : V2 α) : α :=
+  sqrt ((a.x - b.x) * (a.x - b.x) + (a.y - b.y) * (a.y - b.y))
+def normalize (sqrt : α → α) (a : V2 α) : V2 α := scale a (((1 : Nat) : α) / norm sqrt a)
+/-- `Vec2.ProjectOut`: `v + normed·(−(normed·v))`. -/
+def projectOut (sqrt : α → α) (a b : V2 α) : V2 α :=
+  let n := normalize sqrt b
+  add a (scale n (-(dot n a)))
+end V2
+
+namespace V3
+variable [Add α] [Sub α] [Mul α] [Div α] [Neg α] [NatCast α]
+def add (a b : V3 α) : V3 α := ⟨a.x + b.x, a.y + b.y, a.z + b.z⟩
+def sub (a b : V3 α) : V3 α := ⟨a.x - b.x, a.y - b.y, a.z - b.z⟩
+def scale (a : V3 α) (f : α) : V3 α := ⟨a.x * f, a.y * f, a.z * f⟩
+def dot (a b : V3 α) : α := a.x * b.x + a.y * b.y + a.z * b.z
+def cross (a b : V3 α) : V3 α :=
+  ⟨a.y * b.z - a.z * b.y, a.z * b.x - a.x * b.z, a.x * b.y - a.y * b.x⟩
+def sum (a : V3 α) : α := a.x + a.y + a.z
+def distSquared (a b : V3 α) : α :=
+  ((0 : Nat) : α) + (a.x - b.x) * (a.x - b.x) + (a.y - b.y) * (a.y - b.y) + (a.z - b.z) * (a.z - b.z)
+def norm (sqrt : α → α) (a : V3 α) : α := sqrt (dot a a)
+def dist (sqrt : α → α) (a b : V3 α) : α :=
+  sqrt ((a.x - b.x) * (a.x - b.x) + (a.y - b.y) * (a.y - b.y) + (a.z - b.z) * (a.z - b.z))
+def normalize (sqrt : α → α) (a : V3 α) : V3 α := scale a (((1 : Nat) : α) / norm sqrt a)
+def projectOut (sqrt : α → α) (a b : V3 α) : V3 α :=
+  let n := normalize sqrt b
+  add a (scale n (-(dot n a)))
+end V3
+
+namespace V4
+variable [Add α] [Sub α] [Mul α] [Div α] [Neg α] [NatCast α]
+def add (a b : V4 α) : V4 α := ⟨a.x + b.x, a.y + b.y, a.z + b.z, a.w + b.w⟩
+def sub (a b : V4 α) : V4 α := ⟨a.x - b.x, a.y - b.y, a.z - b.z, a.w - b.w⟩
+def scale (a : V4 α) (f : α) : V4 α := ⟨a.x * f, a.y * f, a.z * f, a.w * f⟩
+def dot (a b : V4 α) : α := a.x * b.x + a.y * b.y + a.z * b.z + a.w * b.w
+def sum (a : V4 α) : α := a.x + a.y + a.z + a.w
+def distSquared (a b : V4 α) : α :=
+  ((0 : Nat) : α) + (a.x - b.x) * (a.x - b.x) + (a.y - b.y) * (a.y - b.y) + (a.z - b.z) * (a.z - b.z)
+    + (a.w - b.w) * (a.w - b.w)
+def norm (sqrt : α → α) (a : V4 α) : α := sqrt (dot a a)
+def dist (sqrt : α → α) (a b : V4 α) : α :=
+  sqrt ((a.x - b.x) * (a.x - b.x) + (a.y - b.y) * (a.y - b.y) + (a.z - b.z) * (a.z - b.z)
+    + (a.w - b.w) * (a.w - b.w))
+def normalize (sqrt : α → α) (a : V4 α) : V4 α := scale a (((1 : Nat) : α) / norm sqrt a)
+def projectOut (sqrt : α → α) (a b : V4 α) : V4 α :=
+  let n := normalize sqrt b
+  add a (scale n (-(dot n a)))
+end V4
+
 /-! ## Polynomials as coefficient lists `[a0, a1, …]` (`numerical.Polynomial`) -/
 
 namespace Poly
